@@ -95,6 +95,35 @@ def check(run):
             elif d > 2.0:
                 run.violation("a barely perceptible lightness fix exists but the returned colour is further than dE 2.0",
                               list(c), witness=witness, returned=list(r[0]), dE=round(d, 4), text_vs_bg=side)
+    # the same claim through the public API in spellings whose result is re-formatted (hsl(), rgb(), hex):
+    # the colour the caller gets back must itself succeed and stay within dE 2.0
+    from opt_common import w_api
+    from spellings import spell
+    sub = witnessed[: (120 if q else 2500)]
+    api_cases, api_meta = [], []
+    for (t, b, l, v), w in sub:
+        for kind in ("hsl", "rgbfn", "hex6"):
+            ts, used = spell(run.rng, t, kind)
+            if used != kind:
+                continue
+            api_cases.append((ts, "#%02x%02x%02x" % tuple(b), bool(l), run.rng.choice([0, 1, 2]), bool(v)))
+            api_meta.append((t, b, w))
+    if api_cases:
+        with pool() as p:
+            ares = p.map(w_api, api_cases, chunksize=4)
+        import wcag_ref
+        good = [(c, m, r) for c, m, r in zip(api_cases, api_meta, ares) if "out" in r and r.get("rb_css") is not None]
+        dd = run_lines(["de %d %d %d %d %d %d" % (tuple(m[0]) + tuple(r["rb_css"])) for c, m, r in good], chunks=4)
+        for (c, m, r), d in zip(good, dd):
+            run.count(("api",) + tuple(map(str, c)))
+            run.hit("api.%s" % ("hsl" if str(c[0]).startswith("hsl") else "rgb" if str(c[0]).startswith("rgb") else "hex"))
+            mn = thresholds(c[2], c[4])[0]
+            if not r["ok"] or not wcag_ref.meets(r["rb_css"], m[1], mn):
+                run.violation("a barely perceptible lightness fix exists but the colour make_readable hands back does not succeed",
+                              list(c), witness=m[2], returned=r["out"], reads_as=list(r["rb_css"]), flag=r["ok"])
+            elif bitsf(d) > 2.0:
+                run.violation("a barely perceptible lightness fix exists but the colour make_readable hands back is further than dE 2.0",
+                              list(c), witness=m[2], returned=r["out"], reads_as=list(r["rb_css"]), dE=round(bitsf(d), 4))
     if witnessed:
         (t, b, l, v), w = witnessed[0]
         run.sample({"text": list(t), "bg": list(b), "large": l, "very_readable": v, "witness(colour dE ratio)": w,
